@@ -55,10 +55,10 @@ def run(ctx):
     def post(P_, J, runs):
         ctx.cov["relational"] = common.relational(ctx, P_, J, runs, clause="history-dependent")
 
-    J, runs, cov = common.sem_check(ctx, P, variants, level="model_checking", post=post, write=False)
+    J, runs, cov = common.sem_check(ctx, P, variants, level="exploration", post=post, write=False)
     cov["histories_per_program"] = k
     cov["relational_comparisons"] = ctx.cov.get("relational", 0)
-    ctx.write_evidence("model_checking", cov, assumptions=[
+    ctx.write_evidence("exploration", cov, assumptions=[
         "histories use the public engine.prepare / engine.ground(db, term, target, label) / engine.query API with "
         "the same labels ClauseDBEngine.ground_all uses"])
 
